@@ -124,19 +124,20 @@ class Fn:
                     return b
         raise AnalysisError(f"{self.ref}: statement has no enclosing block")
 
-    def reaches_assuming(self, src: int, dst: int, assume: Iterable[tuple[str, bool]], avoid: Iterable[int] = ()) -> bool:
+    def reaches_assuming(self, src: int, dst: int, assume: Iterable[tuple[str, bool]], avoid: Iterable[int] = (), expand: bool = False) -> bool:
         """is there a CFG path src -> dst that avoids `avoid` and takes no branch edge whose condition contradicts
         one of the assumed atoms?  (path-sensitive in the assumed atoms only: `if a and b: X; if a: Y` and the nested
         form prune the same edges.)  The assumed atoms must not be written on the way - the caller's business."""
         cfg = self.cfg
         neg = {negate(a) for a in assume} - {None}
         edge_atoms = {}
+        ex = (lambda e: self.expand(e, 4)) if expand else None
         for st, n in cfg.tedge.items():
             if isinstance(st, (ast.If, ast.While)):
-                edge_atoms[n] = unit_propagate(flatten_cond(st.test, True) + list(assume))
+                edge_atoms[n] = unit_propagate(atoms_of(st.test, True, expand=ex) + list(assume))
         for st, n in cfg.fedge.items():
             if isinstance(st, (ast.If, ast.While)):
-                edge_atoms[n] = unit_propagate(flatten_cond(st.test, False) + list(assume))
+                edge_atoms[n] = unit_propagate(atoms_of(st.test, False, expand=ex) + list(assume))
         avoid = set(avoid)
         seen = {src}
         stack = [src]
